@@ -77,7 +77,7 @@ def mk_flags(world):
         decompose_deadlines=False,
         release_taskgraphs=sc["rtg"],
         scheduler_log_times=[],
-        scheduler_run_load=False,
+        scheduler_run_load=bool(sc.get("run_load", False)),
         scheduler_log_to_file=False,
     )
     return f, fl, sc
@@ -401,6 +401,28 @@ def max_demand_fits(world):
     return True
 
 
+def gen_clockwork_world(rnd: random.Random):
+    """Inference-serving world for the Clockwork policy inside simulate(): models (profiles with a loading strategy and
+    batch-size execution strategies), single-task request graphs, the policy loads / evicts models itself (run_load)."""
+    nmod = rnd.randint(1, 3)
+    profiles = []
+    for k in range(nmod):
+        strats = [{"dem": [R("gpu", "any", 1)], "rt": rnd.randint(2, 4), "bs": 1}]
+        if rnd.random() < 0.7:
+            strats.append({"dem": [R("gpu", "any", 1)], "rt": strats[0]["rt"] + rnd.randint(1, 3), "bs": 2})
+        profiles.append({"name": f"M{k}", "strats": strats,
+                         "loading": [{"dem": [R("mem", "any", rnd.randint(1, 2))], "rt": rnd.randint(1, 5), "bs": 1}]})
+    graphs = []
+    for gi in range(rnd.randint(1, 3)):
+        graphs.append({"name": f"G{gi}", "jobs": [{"name": "R", "profile": rnd.randrange(nmod)}],
+                       "policy": {"type": "fixed", "period": rnd.randint(1, 4), "n": rnd.randint(2, 6), "start": rnd.randint(0, 6)},
+                       "dv": rnd.choice([[0, 0], [50, 200], [100, 400]])})
+    pools = [[[I("gpu", f"g{w}", rnd.randint(1, 2)), I("mem", f"m{w}", rnd.randint(2, 4))] for w in range(rnd.randint(1, 2))]]
+    return {"profiles": profiles, "graphs": graphs, "pools": pools,
+            "sched": {"kind": "clockwork", "runtime": 0, "run_load": True, "cw_goal": rnd.choice(["clockwork", "least_slack"])},
+            "flags": {"timeout": 200, "frequency": rnd.choice([-1, 1, 3])}, "seed": rnd.randrange(10**6)}
+
+
 def gen_feasible_world(rnd: random.Random):
     """Work-conserving policy (EDF/FIFO/LSF without deadline enforcement), finite releases, every
     strategy fits some empty worker, generous timeout: the run must finish everything (C05)."""
@@ -541,6 +563,21 @@ def directed_worlds():
             {"at": 0, "decs": [{"task": "A@G0@0", "do": "place", "time": 10, "strategy": 1}]},
             {"at": 1, "decs": [{"task": "A@G0@0", "do": "place", "time": 10, "strategy": 2}]}]},
         "flags": {"timeout": 200, "frequency": 2}, "seed": 1,
+    })
+    # profile loading / eviction by the policy: load a model (loading time 10), evict it while the load is still pending,
+    # load it again, evict it when available; a task of the model runs in between
+    out.append({
+        "name": "load_evict_profile",
+        "profiles": [{"name": "M0", "strats": [{"dem": gpu1, "rt": 3, "bs": 1}], "loading": [{"dem": [R("mem", "any", 2)], "rt": 10, "bs": 1}]}],
+        "graphs": [{"name": "G0", "jobs": [{"name": "A", "profile": 0}], "policy": {"type": "fixed", "period": 1, "n": 1, "start": 20}, "dv": [0, 0]}],
+        "pools": [[[I("gpu", "g1", 1), I("mem", "m1", 3)], [I("gpu", "g2", 1), I("mem", "m2", 2)]]],
+        "sched": {"kind": "scripted", "runtime": 0, "lookahead": 0, "script": [
+            {"at": 0, "decs": [{"do": "load", "profile": "M0", "pool": 1, "worker": 1, "time": 1}]},
+            {"at": 2, "decs": [{"do": "evict", "profile": "M0", "pool": 1, "worker": 1, "time": 5}]},
+            {"at": 6, "decs": [{"do": "load", "profile": "M0", "pool": 1, "time": 8}]},
+            {"at": 20, "decs": [{"task": "A@G0@0", "do": "place", "time": 21}]},
+            {"at": 30, "decs": [{"do": "evict", "profile": "M0", "pool": 1, "time": 31}]}]},
+        "flags": {"timeout": 100, "frequency": 2}, "seed": 1,
     })
     for w in out:
         w.setdefault("flags", {})
